@@ -138,8 +138,11 @@ def gamma2(tier, seed):
         ("and3", lambda t: {"$and": ["mov", {"add": ["a"]}, "sub"], "times": t}, {"$and": ["mov", {"add": ["a"]}, "sub"]}),
         ("or_of_and", lambda t: {"$or": [{"$and": ["mov", "add"]}, "sub"], "times": t}, {"$or": [{"$and": ["mov", "add"]}, "sub"]}),
     ]
+    # a sequence whose first and last children are themselves groups (the quantifier must bind the WHOLE sequence)
+    and_of_ors = ("and_of_ors", lambda t: {"$and": [{"$or": ["mov", "sub"]}, {"$or": ["add", "xor"]}], "times": t}, {"$and": [{"$or": ["mov", "sub"]}, {"$or": ["add", "xor"]}]})
     if tier == "quick":
         bodies = bodies[:9]
+    bodies.append(and_of_ors)
     for kind, mk, plain in bodies:
         feat = f"times_{kind}"
         for n in ints:
@@ -335,9 +338,12 @@ def gamma4(tier, seed):
         ("notnot_and", {"$not": [{"$and": ["mov", "add"]}]}),
         ("not_times", {"mov": {"times": 2}}),
         ("anyorder", {"$and_any_order": ["mov", "add"]}),
+        # a RANGED repetition inside a sequence in the argument: every length of the run counts, not only the shortest
+        ("and_ranged", {"$and": [{"mov": {"times": {"min": 1, "max": 3}}}, "add"]}),
+        ("or_ranged_in_and", {"$and": [{"$or": ["mov", "sub"], "times": {"min": 1, "max": 2}}, "add"]}),
     ]
     if tier == "quick":
-        args = args[:5] + [a for a in args if a[0] in ("notnot_and",)]
+        args = args[:5] + [a for a in args if a[0] in ("notnot_and", "and_ranged")]
     for an, X in args:
         N = {"$not": [X]}
         out.append({"id": f"g4/leading/{an}", "doc": doc_of([N, "call"]), "feature": "not_leading"})
@@ -363,6 +369,10 @@ def gamma4(tier, seed):
         out.append({"id": f"g4/operand_nested/{nm}", "doc": doc_of([{"mov": ops}, {"$not": ["call"]}, "call"]), "feature": "not_operand_nested"})
     for nm, arg in (("or", {"$or": ["a", "b"]}), ("notnot", {"$not": ["a"]}), ("and_any", {"$and_any_order": ["a"]})):
         out.append({"id": f"g4/operand_group/{nm}", "doc": doc_of([{"mov": [{"$not": [arg]}, "c"]}, "call"]), "feature": "not_operand_group"})
+    # an operand-level $not next to a $deref operand (either side): the sibling's kind must not change what $not consumes
+    D4 = {"$deref": {"main_reg": "rbp", "constant_offset": "0x8"}}
+    for nm, ops in (("after_deref", [D4, {"$not": ["rax"]}]), ("before_deref", [{"$not": ["rax"]}, D4]), ("between_derefs", [D4, {"$not": ["rax"]}, {"$deref": {"main_reg": "rsi"}}])):
+        out.append({"id": f"g4/operand_deref/{nm}", "doc": doc_of([{"mov": ops}, "ret"]), "feature": "not_operand_with_deref", "domain": "att_mem", "lemmas": ("AEM", "EA", "NE", "VAL")})
     with_twin(out[1], out[1]["doc"]["pattern"])
     with_twin(out[2], out[2]["doc"]["pattern"])
     for t in out:
@@ -517,6 +527,9 @@ def gamma5(tier, seed):
     T("ins/define_only", ["&i", "ret"], ["&i"], {"&i": DI}, "cap_instruction")
     T("ins/twice", ["&i", "&i"], ["&i"], {"&i": DI}, "cap_instruction", lemmas=("AEM", "EA", "NE", "TWIN"), twin=["&i", "zzz"])
     T("ins/separated", ["&i", "ret", "&i"], ["&i"], {"&i": DI}, "cap_instruction")
+    # names that differ only in letter case are different names
+    T("op/two_names_case", [{"mov": ["&Src", "&src"]}, {"add": ["&Src", "&src"]}], ["&Src", "&src"], {"&Src": D2, "&src": D2}, "cap_operand_names_case")
+    T("ins/two_names_case", ["&I", "&i", "&I"], ["&I", "&i"], {"&I": DI[:2], "&i": DI[:2]}, "cap_instruction_names_case")
     T("ins/two_names", ["&i", "&j", "&i", "&j"], ["&i", "&j"], {"&i": DI[:3], "&j": DI[:3]}, "cap_instruction")
     T("ins/later_in_not", ["&i", {"$not": ["&i"]}, "ret"], ["&i"], {"&i": DI[:3]}, "cap_instruction")
     T("ins/mixed", ["&i", {"add": ["&x"]}, "&i", {"sub": ["&x"]}], ["&i", "&x"], {"&i": DI[:3], "&x": D2}, "cap_mixed")
@@ -535,7 +548,7 @@ def gamma5(tier, seed):
         T(f"reg/{fam}/as_in_tests", [{"add": [1, f"{nm}-1"]}, {"mov": [f"{nm}-1.16", f"{nm}-1.32"]}, "jmp"], [f"{nm}-1"], {f"{nm}-1": keys}, "cap_register_later_mid", domain="regs")
     # two different register captures of one family are independent (names with '-n' and with an inner dot)
     # ... and base names that themselves contain a width token (only the trailing suffix selects the width)
-    for n1, n2 in (("&genreg-1", "&genreg-2"), ("&genreg.src", "&genreg.dst"), ("&indreg.a", "&indreg.b"), ("&genreg-16", "&genreg-64"), ("&indreg-32", "&indreg-8l")):
+    for n1, n2 in (("&genreg-1", "&genreg-2"), ("&genreg.src", "&genreg.dst"), ("&indreg.a", "&indreg.b"), ("&genreg-16", "&genreg-64"), ("&indreg-32", "&indreg-8l"), ("&genreg-A", "&genreg-a")):
         keys = list("abcd") if "genreg" in n1 else ["s", "d"]
         T(f"reg/two_names/{n1}", [{"mov": [f"{n1}.64", f"{n2}.64"]}, {"push": [f"{n1}.32"]}, {"push": [f"{n2}.32"]}], [n1, n2], {n1: keys, n2: keys}, "cap_register_two_names", domain="regs", lemmas=("AEM",))
     # documented upper-case suffixes
